@@ -20,6 +20,16 @@ CHECKS = {
        "ChargedToParent, StatusTruth, Exact) are evaluated on every transition and hold for the real manager because its state equals the model's",
   note="bounded: depth<=3-4 contexts, 2-3 nested CallContext, limits/amounts from a 4-bit lattice; time limits not modelled; TLC and the JSON bridge trusted",
   technique="TLA+ spec Quota.tla, TLC exhaustive BFS, per-transition replay on the real API (direction A)"),
+ "C08": dict(
+  level="model_checking", ref="5 C08",
+  text="the inventory of Go functions (about 150: everything reachable from _G, package.loaded, the metatables of standard values and the iterators library functions return) "
+       "is extracted from the running runtime on every run together with each function's declared compliance flags (verif accessor) and a static effect class read from the "
+       "sources (reaches an OS primitive directly / only through safeio / not at all); Gate.tla is instantiated with it and TLC gives, for every function x required flag set, the "
+       "expected outcome (refused before any effect with the context still live, or runs) and the static IoSafe leads; every pair is then exercised for real inside "
+       "runtime.callcontext{flags=...} with 33-73 argument tuples from an effect-seeking pool in a sentinel directory whose changes (files created/modified/deleted, also by spawned "
+       "commands) are observed",
+  note="network and plugin effects are not observable in the sandbox; the static class only raises leads; flag subsets: 6 in quick, all 16 in thorough",
+  technique="TLA+ spec Gate.tla over an inventory extracted from the code, TLC enumeration, every (function, flag set) replayed on the real runtime with effect observation (direction A)"),
  "C09": dict(
   level="model_checking", ref="5 C09",
   text="TLC explores CoSem (Lua 5.4 coroutine semantics: status machine, resume chain, value transfer, close, wrap, pending to-be-closed "
@@ -170,7 +180,7 @@ def main():
     json.dump(m, open(os.path.join(HERE, "MANIFEST.json"), "w"), indent=1)
     print("MANIFEST.json: %d checks, %d not_applicable" % (len(checks), len(na)))
 
-HOOK_COMMITS = ["e5967ad", "aaa007e"]
+HOOK_COMMITS = ["e5967ad", "aaa007e", "dae7e5f"]
 
 if __name__ == "__main__":
     main()
